@@ -209,6 +209,51 @@ def reneg_extension_required(chk):
                           % (W_ch, msg, msg, '5' if key == 'hs_client' else '7'), key='%s %s missing-extension' % (R, key))
 
 
+def alert_levels(chk):
+    """RFC 5246 7.2: an alert is (level, description) with level 1 = warning, 2 = fatal; anything else is malformed and, like a fatal
+    alert, must end the connection with an error.  The engine keeps the level of a half-received alert in eng.alert; the byte that is
+    taken as a level must be stored as 1 only when it is exactly 1, as 2 (fatal) for every other value.  Decided by constant
+    propagation through the bytecode word for level bytes 0, 1, 2, 3, 255; and a description byte under a fatal level always fails."""
+    R = 'alert-level-classification'
+    for key in ('hs_client', 'hs_server'):
+        P = t0.Program(key)
+        o_al = P.layouts.field(P.ctxname, 'eng.alert')[0]
+        I0 = t0ai.Interp(P).run_entry()
+        ws = set(e.word for e in I0.events if e.name == 'set8' and e.args[-1].isconst() and e.args[-1].c == o_al) & \
+            set(e.word for e in I0.events if e.name == 'get8' and e.args and e.args[-1].isconst() and e.args[-1].c == o_al) & \
+            set(e.word for e in I0.events if e.name == 'fail')
+        if len(ws) != 1:
+            raise AnalysisBroken('%s: alert byte word not identified (%s)' % (key, sorted(ws)))
+        W = next(iter(ws))
+        for b in (0, 1, 2, 3, 255):
+            I = t0ai.Interp(P, field_ranges={o_al: (0, 0)})
+            I.unroll_concrete = True
+            st = t0ai.St()
+            st.stack = [t0ai.E({}, b)]
+            I.run_word(W, st, ())
+            vals = set()
+            for e in I.events:
+                if e.word == W and e.name == 'set8' and e.args[-1].isconst() and e.args[-1].c == o_al:
+                    vals.add(e.st.rng(e.args[0]))
+            want = 1 if b == 1 else 2
+            inst = '%s: level byte %d is recorded as %s' % (key, b, 'warning (1)' if want == 1 else 'fatal (2)')
+            if vals == {(want, want)}:
+                chk.ok(R, inst, P.src)
+            else:
+                chk.violation(R, inst, P.src, 'eng.alert receives %s: a malformed level would not end the connection (and the next byte would be read as a level)'
+                              % sorted(vals), key='%s %s %d' % (R, key, b))
+        # description byte under a fatal level: must fail, whatever the byte
+        I = t0ai.Interp(P, field_ranges={o_al: (2, 2)})
+        st = t0ai.St()
+        st.stack = [I.fresh(st, 'desc', 0, 255)]
+        out = I.run_word(W, st, ())
+        inst = '%s: a description byte after a fatal level always ends in fail(256 + description)' % key
+        if not out:
+            chk.ok(R, inst, P.src)
+        else:
+            chk.violation(R, inst, P.src, 'the word can return under eng.alert == 2', key='%s %s fatal-returns' % (R, key))
+
+
 def engine_rules(chk):
     s = 'src/ssl/ssl_engine.c'
     u = build.load_unit(s)
@@ -316,6 +361,7 @@ def run(tier):
     engine_rules(chk)
     reneg_binding(chk)
     reneg_extension_required(chk)
+    alert_levels(chk)
     fail_call_sites(chk)
     io_rules(chk)
     chk.floor('rule instances', len(chk.obls), 100)
